@@ -1,6 +1,7 @@
 package main
 
 import (
+	"go/token"
 	"fmt"
 	"go/types"
 	"strings"
@@ -393,6 +394,63 @@ func runC05(r *Run, p *Prog) {
 		}
 	})
 	// ---- K8 token charsets
+	// ---- K10: what a reader accepts depends on the input alone: no reader branches on a counter or flag kept in the
+	// cursor besides the position (a nesting limit, a mode flag left over from an earlier member)
+	r.Guard("K10", func() {
+		st, _ := a.cursorT.Underlying().(*types.Struct)
+		for _, f := range a.methods {
+			for _, b := range f.Blocks {
+				iff, ok := b.Instrs[len(b.Instrs)-1].(*ssa.If)
+				if !ok {
+					continue
+				}
+				seen := map[ssa.Value]bool{}
+				var walk func(v ssa.Value, d int) *ssa.FieldAddr
+				walk = func(v ssa.Value, d int) *ssa.FieldAddr {
+					if v == nil || seen[v] || d > 5 {
+						return nil
+					}
+					seen[v] = true
+					switch x := v.(type) {
+					case *ssa.BinOp:
+						if fa := walk(x.X, d+1); fa != nil {
+							return fa
+						}
+						return walk(x.Y, d+1)
+					case *ssa.Convert:
+						return walk(x.X, d+1)
+					case *ssa.Phi:
+						for _, e := range x.Edges {
+							if fa := walk(e, d+1); fa != nil {
+								return fa
+							}
+						}
+					case *ssa.UnOp:
+						if x.Op != token.MUL {
+							return walk(x.X, d+1)
+						}
+						fa, isFA := x.X.(*ssa.FieldAddr)
+						if !isFA || !a.isCursorT(fa.X.Type()) {
+							return nil
+						}
+						pt, _ := fa.X.Type().Underlying().(*types.Pointer)
+						if pt == nil || !types.Identical(pt.Elem(), a.cursorT) || st == nil || fa.Field == a.posIdx || fa.Field == a.inIdx {
+							return nil
+						}
+						if bt, isB := st.Field(fa.Field).Type().Underlying().(*types.Basic); isB && bt.Info()&(types.IsInteger|types.IsBoolean) != 0 {
+							return fa
+						}
+					}
+					return nil
+				}
+				if fa := walk(iff.Cond, 0); fa != nil {
+					r.Ob("K10", shortName(f), "readers decide on the input alone (no branch on parser state `"+st.Field(fa.Field).Name()+"`)", p.InstrPos(iff), false,
+						"a reader branches on the cursor member `"+st.Field(fa.Field).Name()+"`, which is neither the input nor the position: whether a piece of text is accepted depends on what was read before it (a nesting bound, a leftover flag), so some grammar-conformant descriptions are rejected")
+				}
+			}
+		}
+		r.Ob("K10", "-", "readers were examined for state-dependent decisions", a.cursorT.Obj().Pos(), len(a.methods) > 0, "no readers")
+	})
 	r.Guard("K8", func() {
 		lower, upper, digit := rangeSet('a', 'z'), rangeSet('A', 'Z'), rangeSet('0', '9')
 		union := func(sets ...*byteSet) *byteSet {
